@@ -132,6 +132,9 @@ def isSymbol (c : EncCfg) (s : Str) : Bool :=
   !s.contains 39 && !(c.g.formatEffectors.any (fun f => s.contains f)) &&
     !(2 * s.length > c.width) && s.all isPrintable && !s.isEmpty
 
+/-- the module-level `_permissive_decoder` of encoder.py: `OmniDecoder(grammar=OmniGrammar())` -/
+def permissiveDec : Dec := ⟨Gen.omni, .omni⟩
+
 /-- `PVLEncoder.needs_quotes` (encoder.py:458) -/
 def needsQuotesBase (c : EncCfg) (s : Str) : Except EErr Bool :=
   if c.g.whitespace.any (fun w => s.contains w) then .ok true
@@ -141,7 +144,14 @@ def needsQuotesBase (c : EncCfg) (s : Str) : Except EErr Bool :=
       if s.isEmpty || !b then .ok true
       else if endsWith s [45] then .ok true
       else match decodeSimple c.d s with
-        | .ok (.str t) => .ok (t != s)
+        | .ok (.str t) =>
+          if t != s then .ok true
+          else
+            -- the default loader's decoder must give the same string back, too
+            (match decodeSimple permissiveDec s with
+             | .ok (.str t') => .ok (t' != s)
+             | .ok _ => .ok true
+             | .error .value => .ok true)
         | .ok _ => .ok true
         | .error .value => .ok true
 
